@@ -52,7 +52,7 @@ def main():
         "hooks": {
             "guard": "verif",
             "enable": "go build -tags verif (the harness module replaces the repository modules with /repo/v2 and /repo/execution, see scripts/build.sh)",
-            "baseline_off_cmd": "for m in . execution v2; do (cd /repo/$m && go test -vet=off -count=1 -timeout 25m ./...) || exit 1; done",
+            "baseline_off_cmd": "for m in . ./execution ./v2; do (cd /repo/$m && go test -json -vet=off -count=1 -timeout 25m ./...); done",
             "source_commits": hooks_commits,
             "add_only": True,
         },
